@@ -7,14 +7,13 @@ digit lists the relative configuration `relT l1 l2 = (O₂ − O₁, F₁, F₂)
 `childT (relT l1 l2) a1 a2` — it does not depend on the parents' `k`.
 
 * `closure_table` (kernel evaluation, 15 616 cases): a configuration with `|Δ| ≤ 4` that is not one of the 12 excluded
-  ones (`exc`: the same triangle written with another anchor vertex, or two triangles that overlap), or the
+  ones (`Exc`: the same triangle written with another anchor vertex, or two triangles that overlap), or the
   configuration of a cell with itself and two different digits, has only children that are far (`|Δ| > 4`) or again
   not excluded;  far configurations only have far children (`far_step`).  Hence by induction on the depth
   (`rel_inv`): two DIFFERENT digit lists of the same length are far or not excluded.
-* `cfg_table` (kernel evaluation, 46 848 cases): for each of the three orientation classes the relative configuration
-  of the two FINAL anchors (after the `flipIJ` / `invertJ` stages: `stageRel`, `ncfg`), with the reflection bits of the
-  two digits, is far (`|Δ'| > 2`) or one of the 588 certified configurations of part 2.
-* `lists_cfg`: every two different digit lists of the same length give a far or certified configuration. -/
+* `stage_rel`, `ncfg`: the relative configuration of the two FINAL anchors (after the `flipIJ` / `invertJ` stages) as a
+  function of the internal one; `far_cfg`: internal anchors more than 4 apart give final anchors more than 2 apart.
+Part 4 (`cfg_table`, `lists_cfg`) shows that every final configuration is far or certified. -/
 namespace A5.PD
 open A5 A5.HilbertLocate A5.PG A5.CP
 
@@ -45,13 +44,14 @@ theorem relT_flips (l1 l2 : List Nat) (h1 : ∀ x ∈ l1, x < 4) (h2 : ∀ x ∈
 
 /-! ## the excluded configurations and the invariant -/
 
-/-- configurations with `|Δ| ≤ 4` that never occur for two different cells -/
-def exc : List Tri := [
-  ((0, -1), (-1, 1), (1, 1)), ((0, -1), (-1, -1), (1, -1)), ((0, 1), (1, 1), (-1, 1)), ((0, 1), (1, -1), (-1, -1)),
-  ((0, 0), (1, 1), (1, 1)), ((0, 0), (1, 1), (1, -1)), ((0, 0), (1, -1), (1, 1)), ((0, 0), (1, -1), (1, -1)),
-  ((0, 0), (-1, 1), (-1, 1)), ((0, 0), (-1, 1), (-1, -1)), ((0, 0), (-1, -1), (-1, 1)), ((0, 0), (-1, -1), (-1, -1))]
+/-- configurations with `|Δ| ≤ 4` that never occur for two different cells: `Δ = (0, 0)` with equal first flips (the
+same triangle, or two overlapping triangles at one anchor vertex), or `Δ = (0, F₁.1)` with opposite first and equal
+second flips (the same triangle written with its other anchor vertex) — 12 of the 976 configurations -/
+def Exc (t : Tri) : Prop :=
+  t.1.1 = 0 ∧ ((t.1.2 = 0 ∧ t.2.1.1 = t.2.2.1) ∨ (t.1.2 = t.2.1.1 ∧ t.2.2.1 = -t.2.1.1 ∧ t.2.1.2 = t.2.2.2))
+instance (t : Tri) : Decidable (Exc t) := by unfold Exc; infer_instance
 
-def Good (t : Tri) : Prop := HexLe 4 t.1 ∧ t ∉ exc
+def Good (t : Tri) : Prop := HexLe 4 t.1 ∧ ¬Exc t
 instance (t : Tri) : Decidable (Good t) := by unfold Good; infer_instance
 
 /-- a cell with itself -/
@@ -114,12 +114,6 @@ def ncfg (inv fl : Bool) (u : Tri) (a1 a2 : Nat) : NCfg :=
 def CfgOK (x : NCfg) : Prop := ¬HexLe 2 x.1 ∨ certBit (key x) = true
 instance (x : NCfg) : Decidable (CfgOK x) := by unfold CfgOK; infer_instance
 
-/-- **coverage**: every final configuration of the children of admissible parents is far or certified, in each of the
-three orientation classes -/
-theorem cfg_table : ∀ c ∈ oriClasses, ∀ i ∈ List.range 9, ∀ j ∈ List.range 9, ∀ F1 ∈ flips4, ∀ F2 ∈ flips4,
-    ∀ a1 ∈ List.range 4, ∀ a2 ∈ List.range 4,
-      Par (mkT i j F1 F2) a1 a2 → CfgOK (ncfg c.1 c.2 (childT (mkT i j F1 F2) a1 a2) a1 a2) := by decide +kernel
-
 /-! ## the steps for arbitrary configurations -/
 
 theorem par_hex {t : Tri} {a1 a2 : Nat} (h : Par t a1 a2) : HexLe 4 t.1 := by
@@ -140,15 +134,6 @@ theorem closure_step (t : Tri) (a1 a2 : Nat) (h1 : t.2.1 ∈ flips4) (h2 : t.2.2
     (hp : Par t a1 a2) : InvT (childT t a1 a2) := by
   obtain ⟨e, b1, b2⟩ := mkT_eq t (par_hex hp)
   have := closure_table _ (List.mem_range.2 b1) _ (List.mem_range.2 b2) _ h1 _ h2 a1 (List.mem_range.2 ha1)
-    a2 (List.mem_range.2 ha2)
-  rewrite [e] at this
-  exact this hp
-
-theorem cfg_step (inv fl : Bool) (hc : (inv, fl) ∈ oriClasses) (t : Tri) (a1 a2 : Nat) (h1 : t.2.1 ∈ flips4)
-    (h2 : t.2.2 ∈ flips4) (ha1 : a1 < 4) (ha2 : a2 < 4) (hp : Par t a1 a2) :
-    CfgOK (ncfg inv fl (childT t a1 a2) a1 a2) := by
-  obtain ⟨e, b1, b2⟩ := mkT_eq t (par_hex hp)
-  have := cfg_table _ hc _ (List.mem_range.2 b1) _ (List.mem_range.2 b2) _ h1 _ h2 a1 (List.mem_range.2 ha1)
     a2 (List.mem_range.2 ha2)
   rewrite [e] at this
   exact this hp
@@ -243,48 +228,5 @@ theorem anchorCfg_stage (n : Nat) (inv fl : Bool) (a1 a2 : Nat) (m1 m2 : List Na
   unfold anchorCfg ncfg
   rewrite [stageAnchor_k, stageAnchor_k, e1, e2, e3]
   rfl
-
-/-- **every two different digit lists of the same length** give, in each orientation class, final anchors whose
-relative configuration is far or certified -/
-theorem lists_cfg (inv fl : Bool) (hc : (inv, fl) ∈ oriClasses) (n : Nat) (l1 l2 : List Nat) (e1 : l1.length = n)
-    (e2 : l2.length = n) (d1 : ∀ x ∈ l1, x < 4) (d2 : ∀ x ∈ l2, x < 4) (hne : l1 ≠ l2) :
-    CfgOK (anchorCfg (stageAnchor n inv fl (listAnchorK l1)) (stageAnchor n inv fl (listAnchorK l2))) ∧
-      (stageAnchor n inv fl (listAnchorK l1)).flips ∈ flips4 ∧ (stageAnchor n inv fl (listAnchorK l2)).flips ∈ flips4 := by
-  cases l1 with
-  | nil =>
-    cases l2 with
-    | nil => exact absurd rfl hne
-    | cons a2 m2 => subst e1; cases e2
-  | cons a1 m1 =>
-    cases l2 with
-    | nil => subst e2; cases e1
-    | cons a2 m2 =>
-      have hm1 : ∀ x ∈ m1, x < 4 := fun x hx => d1 x (List.mem_cons_of_mem _ hx)
-      have hm2 : ∀ x ∈ m2, x < 4 := fun x hx => d2 x (List.mem_cons_of_mem _ hx)
-      have ha1 := d1 a1 (List.mem_cons_self ..)
-      have ha2 := d2 a2 (List.mem_cons_self ..)
-      obtain ⟨f1, f2⟩ := relT_flips m1 m2 hm1 hm2
-      have hst := parent_status_of m1 m2 a1 a2 hne
-        (rel_inv m1.length m1 m2 rfl (by simp only [List.length_cons] at e1 e2; omega) hm1 hm2)
-      obtain ⟨g1, g2⟩ := childT_flips _ a1 a2 f1 f2 ha1 ha2
-      refine ⟨?_, ?_, ?_⟩
-      · rewrite [anchorCfg_stage, relT_cons]
-        rcases hst with h | h
-        · exact Or.inl (far_cfg inv fl _ g1 g2 (far_step _ a1 a2 f1 f2 ha1 ha2 h))
-        · exact cfg_step inv fl hc _ a1 a2 f1 f2 ha1 ha2 h
-      · rewrite [stageAnchor_flips]
-        have := relT_flips (a1 :: m1) (a2 :: m2) d1 d2
-        have h := this.1
-        change (listAnchor (a1 :: m1)).2 ∈ flips4 at h
-        show stageFlips inv (listAnchor (a1 :: m1)).2 ∈ flips4
-        generalize (listAnchor (a1 :: m1)).2 = F at h
-        revert F; cases inv <;> decide
-      · rewrite [stageAnchor_flips]
-        have := relT_flips (a1 :: m1) (a2 :: m2) d1 d2
-        have h := this.2
-        change (listAnchor (a2 :: m2)).2 ∈ flips4 at h
-        show stageFlips inv (listAnchor (a2 :: m2)).2 ∈ flips4
-        generalize (listAnchor (a2 :: m2)).2 = F at h
-        revert F; cases inv <;> decide
 
 end A5.PD
